@@ -122,4 +122,32 @@ theorem isPSD_lpq (m : ℕ) {p q c : ℝ} (hq : 0 < q) (hqp : q ≤ p) (hp2 : p 
     (div_pos hq hp0) ((div_le_one hp0).mpr hqp)
   exact (h1.smul hc).exp_neg
 
+theorem IsPSD.sum {ι : Type*} (s : Finset ι) {k : ι → X → X → ℝ} (h : ∀ i ∈ s, IsPSD (k i)) :
+    IsPSD fun x y => ∑ i ∈ s, k i x y := by
+  classical
+  induction s using Finset.induction_on with
+  | empty => simpa using isPSD_const (X := X) le_rfl
+  | insert a s ha ih =>
+    simp only [sum_insert ha]
+    exact (h a (mem_insert_self a s)).add (ih fun i hi => h i (mem_insert_of_mem hi))
+
+/-- the one-dimensional kernel `exp(−c·|s−t|^q)` is PSD for `0 < q ≤ 2`, `c ≥ 0` -/
+theorem isPSD_exp_abs_rpow {q c : ℝ} (hq : 0 < q) (hq2 : q ≤ 2) (hc : 0 ≤ c) :
+    IsPSD fun s t : ℝ => Real.exp (-(c * |s - t| ^ q)) :=
+  ((isCND_abs_rpow hq hq2).smul hc).exp_neg
+
+/-- **Sum-power profile**: `((1−c₀)·mean_k exp(−c·|a_k−b_k|^q) + c₀)^P` is PSD on `Fin m → ℝ` for
+`0 < q ≤ 2`, `0 ≤ c₀ ≤ 1` and a natural power `P`. -/
+theorem isPSD_sumPower (m : ℕ) {q c c₀ : ℝ} (hq : 0 < q) (hq2 : q ≤ 2) (hc : 0 ≤ c) (h0 : 0 ≤ c₀)
+    (h1 : c₀ ≤ 1) (P : ℕ) :
+    IsPSD fun a b : Fin m → ℝ =>
+      ((1 - c₀) * ((∑ k, Real.exp (-(c * |a k - b k| ^ q))) / (m : ℝ)) + c₀) ^ P := by
+  have hs : IsPSD fun a b : Fin m → ℝ => ∑ k, Real.exp (-(c * |a k - b k| ^ q)) :=
+    IsPSD.sum univ fun k _ => (isPSD_exp_abs_rpow hq hq2 hc).comap fun a : Fin m → ℝ => a k
+  have hm : IsPSD fun a b : Fin m → ℝ =>
+      (1 - c₀) * ((∑ k, Real.exp (-(c * |a k - b k| ^ q))) / (m : ℝ)) := by
+    have := hs.smul (c := (1 - c₀) * (m : ℝ)⁻¹) (mul_nonneg (sub_nonneg.mpr h1) (by positivity))
+    simpa only [div_eq_mul_inv, mul_assoc, mul_comm ((m : ℝ)⁻¹)] using this
+  exact (hm.add (isPSD_const h0)).pow P
+
 end Xrfmv.Psd
